@@ -1,6 +1,7 @@
 import ReplicatProofs.Lemmas.Store
 import ReplicatProofs.Lemmas.Paging
 import ReplicatProofs.Lemmas.LocalSpec
+import ReplicatProofs.Lemmas.ObjCmd
 /-!
 # C13 — all backends behave as the same simple object store
 
@@ -512,5 +513,447 @@ example : Universe (fun p => p = ["a".toList, "b".toList] ∨ p = ["a".toList, "
   refine ⟨⟨?_, ?_⟩, Inv.empty _⟩
   · rintro p (rfl | rfl) <;> decide
   · rintro p q (rfl | rfl) (rfl | rfl) <;> decide
+
+/-! ## the object-level commands: `upload_objects`, `download_objects`, `list_objects`, `delete_objects`
+
+Model: `ObjCmd.lean` — every command is a program over the step function of a store model and records the backend calls it
+makes.  The theorems below are stated for **any** `StoreModel` (step function + abstraction + invariant + region of operations +
+proof that every step in the region refines `SpecStep`); `specModel`, `s3Model`, `b2Model`, `localModel` package the refinement
+theorems above, so everything proved here holds for the map and for the three adapter models alike.  `U` is the name universe of
+the property (canonical names, none a directory prefix of another); besides the objects it contains the files already present
+in a download / cache directory. -/
+section objcmd
+open Replicat.ObjCmd
+
+/-- the executable specification as a store model (no restriction on operations) -/
+def specModel : StoreModel MapStore :=
+  ⟨MapStore.step, MapStore.abs, MapStore.Inv, fun _ => True, fun s op hi _ => map_refines s hi op⟩
+
+/-- the S3 adapter model, any page size ≥ 1 -/
+def s3Model (ps : Nat) (hps : 1 ≤ ps) : StoreModel S3 :=
+  ⟨S3.step ps, MapStore.abs, MapStore.Inv, fun op => NameOk (fun n => hasDotSegment n = false) op ∧ ChunkOk op,
+    fun s op hi ho => s3_refines ps hps s hi op ho.1 ho.2⟩
+
+/-- the B2 adapter model, any page size ≥ 1 -/
+def b2Model (ps : Nat) (hps : 1 ≤ ps) : StoreModel B2 :=
+  ⟨B2.step ps, B2.abs, B2.Inv, fun op => NameOk (fun n => b2Addr n = some n) op ∧ ChunkOk op,
+    fun s op hi ho => b2_refines ps hps s hi op ho.1 ho.2⟩
+
+/-- the local adapter model over a name universe without `*.tmp` names, any good spelling of the location -/
+def localModel (U : Path → Prop) (hU : Universe U) (hnotmp : ∀ p, U p → tmpName (joinSlash p) = false) (root : List Char)
+    (hroot : goodRoot root = true) : StoreModel FS :=
+  ⟨LocalFS.step root, FS.abs, Inv U, LocalOk U, fun fs op hi ho => by
+    cases op with
+    | list pfx => exact local_list_refines_partial U hU fs hi root hroot pfx ho.2 hnotmp
+    | upload n d => exact local_refines U hU root fs hi _ ho.2 ho.1 rfl
+    | uploadStream n d c => exact local_refines U hU root fs hi _ ho.2 ho.1 rfl
+    | delete n => exact local_refines U hU root fs hi _ ho.2 ho.1 rfl
+    | exists_ n => exact local_refines U hU root fs hi _ ho.2 ho.1 rfl
+    | download n => exact local_refines U hU root fs hi _ ho.2 ho.1 rfl
+    | downloadStream n c sink => exact local_refines U hU root fs hi _ ho.2 ho.1 rfl⟩
+
+/-- **Every object-level command is a composition of backend steps, hence of `SpecStep`s.**  For any step function, the calls a
+command records, replayed as a history, lead from the state before the command to the state after it and return what the
+command saw (so a command does nothing to the backend that is not in its record); and over a store model whose region contains
+the recorded calls, the invariant is kept and the record is a run of the specification — everything proved about the three
+adapters (`s3_refines`, `b2_refines`, `local_refines`, the listing and paging theorems) carries over to the commands. -/
+theorem objcmd_refine_store {σ : Type} (M : StoreModel σ) (concurrent : Nat) (c : Cmd) (s : σ) (hinv : M.inv s) (loc : Tree)
+    (hok : ∀ e ∈ (c.run M.step concurrent s loc).tr, M.ok e.1) :
+    runHistory M.step s ((c.run M.step concurrent s loc).tr.map (·.1))
+      = ((c.run M.step concurrent s loc).st, (c.run M.step concurrent s loc).tr.map (·.2)) ∧
+    M.inv (c.run M.step concurrent s loc).st ∧
+    SpecRun (M.abs s) ((c.run M.step concurrent s loc).tr.map (·.1)) (M.abs (c.run M.step concurrent s loc).st)
+      ((c.run M.step concurrent s loc).tr.map (·.2)) := by
+  have hch := cmd_chain M.step concurrent c s loc
+  exact ⟨hch.runHistory, Chain.specRun M hinv hok hch⟩
+
+/-- **`upload_objects`, `skip_existing`.**  For every list of path arguments that exist (`flatten … = ok fl`), every working
+directory, rate limit and number of slots: the command succeeds and returns the files (`None` if there are none); with
+`skip_existing` no object that existed before is changed — whatever the names of the files; objects whose name is not the name
+of an uploaded file are untouched; and if the names are distinct, each uploaded file's object holds exactly the file's bytes,
+unless `skip_existing` was given and the object existed. -/
+theorem upload_skip_existing_preserves {σ : Type} (M : StoreModel σ) (concurrent : Nat) (hconc : 1 ≤ concurrent) (cwd : Path)
+    (dirs paths : List Path) (rl : Option Nat) (hrl : rl ≠ some 0) (skip : Bool) (s : σ) (hinv : M.inv s) (t : Tree)
+    (fl : List Path) (hfl : flatten t dirs paths = .ok fl) (hok : ∀ f ∈ fl, M.OkName (objectName cwd f)) :
+    (uploadObjects M.step concurrent cwd dirs paths rl skip s t).res
+        = .ok (if dedupFirst fl = [] then .none else .files (dedupFirst fl)) ∧
+    M.inv (uploadObjects M.step concurrent cwd dirs paths rl skip s t).st ∧
+    (skip = true → ∀ n, (M.abs s n).isSome = true →
+        M.abs (uploadObjects M.step concurrent cwd dirs paths rl skip s t).st n = M.abs s n) ∧
+    (∀ n, n ∉ fl.map (objectName cwd) → M.abs (uploadObjects M.step concurrent cwd dirs paths rl skip s t).st n = M.abs s n) ∧
+    (((dedupFirst fl).map (objectName cwd)).Nodup → ∀ f ∈ fl, (skip = false ∨ M.abs s (objectName cwd f) = none) →
+        M.abs (uploadObjects M.step concurrent cwd dirs paths rl skip s t).st (objectName cwd f) = t.get f) := by
+  obtain ⟨h1, h2, _, h4⟩ := uploadObjects_spec M concurrent hconc cwd dirs paths rl hrl skip s hinv t fl hfl hok
+  have hsome : ∀ f ∈ dedupFirst fl, (t.get f).isSome = true := fun f hf => flatten_mem hfl f ((mem_dedupFirst fl f).mp hf)
+  refine ⟨h1, h2, ?_, ?_, ?_⟩
+  · intro hs n hn
+    rw [h4, hs]; exact upSpec_skip_keeps _ _ n hn
+  · intro n hn
+    rw [h4]
+    apply upSpec_not_mem
+    rw [items_names hsome]
+    intro hm
+    obtain ⟨f, hf, rfl⟩ := List.mem_map.mp hm
+    exact hn (List.mem_map.mpr ⟨f, (mem_dedupFirst fl f).mp hf, rfl⟩)
+  · intro hnd f hf hc
+    obtain ⟨d, hd⟩ := Option.isSome_iff_exists.mp (flatten_mem hfl f hf)
+    rw [h4, hd]
+    apply upSpec_mem skip _ _ (by rw [items_names hsome]; exact hnd) _ d _ hc
+    exact items_mem.mpr ⟨f, (mem_dedupFirst fl f).mpr hf, hd, rfl⟩
+
+/-- forced hypothesis of the last clause (and of the round trip): names are derived relative to the *common* path with the
+working directory, so a file under it and a file outside it can get the same object name — with the working directory `/a/b`,
+the files `/a/b/c/f` and `/a/c/f` are both called `c/f`, and one upload silently replaces the other -/
+theorem upload_name_collision_witness :
+    objectName ["a".toList, "b".toList] ["a".toList, "b".toList, "c".toList, "f".toList] = "c/f".toList ∧
+    objectName ["a".toList, "b".toList] ["a".toList, "c".toList, "f".toList] = "c/f".toList ∧
+    (uploadObjects MapStore.step 2 ["a".toList, "b".toList] [] [["a".toList, "b".toList, "c".toList, "f".toList], ["a".toList, "c".toList, "f".toList]]
+        none false [] [(["a".toList, "b".toList, "c".toList, "f".toList], [1]), (["a".toList, "c".toList, "f".toList], [2])]).st
+      = [("c/f".toList, [2])] := by
+  refine ⟨by decide, by decide, by decide⟩
+
+/-- **`download_objects`, `skip_existing`.**  Over a store whose selected objects (prefix + predicate) and the files already in
+the target directory lie in the name universe: the command succeeds and leaves the store as it was; with `skip_existing` no
+file that existed before is changed; the file of every selected object holds exactly the object's bytes unless `skip_existing`
+was given and the file existed; every path that is not the path of a selected object is as before (nothing else is created). -/
+theorem download_skip_existing_preserves {σ : Type} (M : StoreModel σ) (U : Path → Prop) (hU : Universe U) (concurrent : Nat)
+    (hconc : 1 ≤ concurrent) (pfx : Name) (keep : Name → Bool) (rl : Option Nat) (hrl : rl ≠ some 0) (skip : Bool) (s : σ)
+    (hinv : M.inv s) (dir : Tree) (hdir : ∀ q ∈ dir.keys, U q) (hlist : M.ok (.list pfx))
+    (hsel : ∀ n, (M.abs s n).isSome = true → pfx <+: n → keep n = true → validName n = true ∧ U (splitSlash n) ∧ M.OkName n) :
+    (∃ l : List Name, l.Nodup ∧ (∀ n, n ∈ l ↔ (M.abs s n).isSome = true ∧ pfx <+: n ∧ keep n = true) ∧
+      (downloadObjects M.step concurrent pfx keep rl skip s dir).res = .ok (if l = [] then .none else .names l)) ∧
+    M.inv (downloadObjects M.step concurrent pfx keep rl skip s dir).st ∧
+    M.abs (downloadObjects M.step concurrent pfx keep rl skip s dir).st = M.abs s ∧
+    (skip = true → ∀ q, (dir.get q).isSome = true →
+        (downloadObjects M.step concurrent pfx keep rl skip s dir).loc.get q = dir.get q) ∧
+    (∀ n, (M.abs s n).isSome = true → pfx <+: n → keep n = true → (skip = false ∨ dir.get (splitSlash n) = none) →
+        (downloadObjects M.step concurrent pfx keep rl skip s dir).loc.get (splitSlash n) = M.abs s n) ∧
+    (∀ q, (¬ ∃ n, (M.abs s n).isSome = true ∧ pfx <+: n ∧ keep n = true ∧ splitSlash n = q) →
+        (downloadObjects M.step concurrent pfx keep rl skip s dir).loc.get q = dir.get q) := by
+  obtain ⟨l, hnd, hmem, hres, hi, ha, hloc⟩ :=
+    downloadObjects_spec M hU concurrent hconc pfx keep rl hrl skip s hinv dir hdir hlist hsel
+  have hlive : ∀ n ∈ l, (M.abs s n).isSome = true := fun n hn => ((hmem n).mp hn).1
+  refine ⟨⟨l, hnd, hmem, hres⟩, hi, ha, ?_, ?_, ?_⟩
+  · intro hs q hq
+    rw [hloc, downSpec_get skip _ l hlive, hs]
+    simp only [hq, and_self, if_true, ite_self]
+  · intro n h1 h2 h3 hc
+    have hin : splitSlash n ∈ l.map splitSlash := List.mem_map_of_mem ((hmem n).mpr ⟨h1, h2, h3⟩)
+    rw [hloc, downSpec_get skip _ l hlive, if_pos hin, joinSlash_splitSlash]
+    rcases hc with hc | hc
+    · simp [hc]
+    · simp [hc]
+  · intro q hq
+    have hnin : q ∉ l.map splitSlash := by
+      intro hm
+      obtain ⟨n, hn, rfl⟩ := List.mem_map.mp hm
+      obtain ⟨h1, h2, h3⟩ := (hmem n).mp hn
+      exact hq ⟨n, h1, h2, h3, rfl⟩
+    rw [hloc, downSpec_get skip _ l hlive, if_neg hnin]
+
+/-- **`list_objects`** returns exactly the names of the live objects that start with the prefix and satisfy the predicate (the
+regular expression is an arbitrary predicate), each once, and changes nothing. -/
+theorem list_objects_spec {σ : Type} (M : StoreModel σ) (pfx : Name) (keep : Name → Bool) (s : σ) (hinv : M.inv s) (loc : Tree)
+    (hlist : M.ok (.list pfx)) :
+    ∃ l : List Name, (listObjects M.step pfx keep s loc).res = .ok (.names l) ∧ l.Nodup ∧
+      (∀ n, n ∈ l ↔ (M.abs s n).isSome = true ∧ pfx <+: n ∧ keep n = true) ∧
+      M.inv (listObjects M.step pfx keep s loc).st ∧ M.abs (listObjects M.step pfx keep s loc).st = M.abs s ∧
+      (listObjects M.step pfx keep s loc).loc = loc := by
+  obtain ⟨l, h1, h2, h3, h4, h5, h6⟩ := listObjects_spec M pfx keep s hinv loc hlist
+  exact ⟨l, h3, h1, h2, h4, h5, h6⟩
+
+/-- **`delete_objects`.**  If the command proceeds (`confirm` off, or the answer is `y` / `Y`), exactly the given names are gone
+and every other object is untouched; the cached copies of the given names — and nothing else — are removed from the cache
+directory when one is configured; if it does not proceed, nothing changes.  The command is idempotent: run again on its own
+result it succeeds and changes neither the store nor the cache (names that do not exist are no error). -/
+theorem delete_objects_spec {σ : Type} (M : StoreModel σ) (U : Path → Prop) (hU : Universe U) (names : List Name) (confirm : Bool)
+    (answer : List Char) (useCache : Bool) (s : σ) (hinv : M.inv s) (cache : Tree) (hok : ∀ n ∈ names, M.ok (.delete n))
+    (hn : useCache = true → ∀ n ∈ names, validName n = true ∧ U (splitSlash n))
+    (hc : useCache = true → ∀ q ∈ cache.keys, U q) :
+    (deleteObjects M.step names confirm answer useCache s cache).res = .ok .none ∧
+    M.inv (deleteObjects M.step names confirm answer useCache s cache).st ∧
+    (∀ n, M.abs (deleteObjects M.step names confirm answer useCache s cache).st n =
+      if proceeds confirm answer = true ∧ n ∈ names then none else M.abs s n) ∧
+    (∀ q, (deleteObjects M.step names confirm answer useCache s cache).loc.get q =
+      if proceeds confirm answer = true ∧ useCache = true ∧ q ∈ names.map splitSlash then none else cache.get q) ∧
+    (deleteObjects M.step names confirm answer useCache (deleteObjects M.step names confirm answer useCache s cache).st
+        (deleteObjects M.step names confirm answer useCache s cache).loc).res = .ok .none ∧
+    M.abs (deleteObjects M.step names confirm answer useCache (deleteObjects M.step names confirm answer useCache s cache).st
+        (deleteObjects M.step names confirm answer useCache s cache).loc).st
+      = M.abs (deleteObjects M.step names confirm answer useCache s cache).st ∧
+    (∀ q, (deleteObjects M.step names confirm answer useCache (deleteObjects M.step names confirm answer useCache s cache).st
+        (deleteObjects M.step names confirm answer useCache s cache).loc).loc.get q
+      = (deleteObjects M.step names confirm answer useCache s cache).loc.get q) := by
+  obtain ⟨a1, a2, a3, a4, a5⟩ := deleteObjects_spec M hU names confirm answer useCache s hinv cache hok hn hc
+  obtain ⟨b1, _, b3, b4, _⟩ := deleteObjects_spec M hU names confirm answer useCache _ a2 _ hok hn
+    (fun hu q hq => hc hu q (a5 q hq))
+  refine ⟨a1, a2, a3, a4, b1, ?_, ?_⟩
+  · funext n
+    rw [b3, a3]
+    split <;> simp_all
+  · intro q
+    rw [b4, a4]
+    split <;> simp_all
+
+/-- **Round trip.**  For every tree of local files, every list of path arguments whose files lie under the working directory
+(relative paths in the name universe), every store, filter, rate limits and flags: after `upload_objects` and then
+`download_objects` into an empty directory, the directory holds — under the same relative path, byte for byte — exactly the
+uploaded files the filter selects, each once, and nothing else.  Needed: an uploaded name that already exists is overwritten
+(no `skip_existing` on upload, or the names are fresh), and no *other* object of the store passes the filter (with an empty
+store, or the empty prefix and no regular expression on a store holding nothing else, the directory equals the uploaded tree). -/
+theorem upload_then_download_roundtrip {σ : Type} (M : StoreModel σ) (U : Path → Prop) (hU : Universe U)
+    (hnames : ∀ n, validName n = true → U (splitSlash n) → M.OkName n)
+    (concurrent : Nat) (hconc : 1 ≤ concurrent) (cwd : Path) (dirs paths : List Path) (t : Tree) (fl : List Path)
+    (hfl : flatten t dirs paths = .ok fl) (hunder : ∀ f ∈ fl, ∃ rel, f = cwd ++ rel ∧ U rel)
+    (rlUp rlDown : Option Nat) (hr1 : rlUp ≠ some 0) (hr2 : rlDown ≠ some 0) (skipUp skipDown : Bool)
+    (pfx : Name) (keep : Name → Bool) (hlist : M.ok (.list pfx)) (s : σ) (hinv : M.inv s)
+    (hfresh : skipUp = true → ∀ f ∈ fl, M.abs s (objectName cwd f) = none)
+    (hothers : ∀ n, (M.abs s n).isSome = true → pfx <+: n → keep n = true → ∃ f ∈ fl, n = objectName cwd f) :
+    (uploadObjects M.step concurrent cwd dirs paths rlUp skipUp s t).res
+        = .ok (if dedupFirst fl = [] then .none else .files (dedupFirst fl)) ∧
+    (∃ l : List Name, l.Nodup ∧ (∀ n, n ∈ l ↔ (∃ f ∈ fl, n = objectName cwd f) ∧ pfx <+: n ∧ keep n = true) ∧
+      (downloadObjects M.step concurrent pfx keep rlDown skipDown
+        (uploadObjects M.step concurrent cwd dirs paths rlUp skipUp s t).st []).res = .ok (if l = [] then .none else .names l)) ∧
+    (downloadObjects M.step concurrent pfx keep rlDown skipDown
+        (uploadObjects M.step concurrent cwd dirs paths rlUp skipUp s t).st []).loc.keys.Nodup ∧
+    ∀ rel, (downloadObjects M.step concurrent pfx keep rlDown skipDown
+        (uploadObjects M.step concurrent cwd dirs paths rlUp skipUp s t).st []).loc.get rel
+      = if cwd ++ rel ∈ fl ∧ pfx <+: joinSlash rel ∧ keep (joinSlash rel) = true then t.get (cwd ++ rel) else none := by
+  -- names of the uploaded files
+  have hname : ∀ f ∈ fl, ∃ rel, f = cwd ++ rel ∧ U rel ∧ objectName cwd f = joinSlash rel ∧ validPath rel = true := by
+    intro f hf
+    obtain ⟨rel, rfl, hu⟩ := hunder f hf
+    have hv := hU.valid rel hu
+    exact ⟨rel, rfl, hu, objectName_under cwd rel ((validPath_iff rel).mp hv).1, hv⟩
+  have hokf : ∀ f ∈ fl, M.OkName (objectName cwd f) := by
+    intro f hf
+    obtain ⟨rel, _, hu, hn, hv⟩ := hname f hf
+    rw [hn]
+    exact hnames _ (validName_joinSlash hv) (by rw [split_join_valid hv]; exact hu)
+  have hinj : ∀ f ∈ fl, ∀ g ∈ fl, objectName cwd f = objectName cwd g → f = g := by
+    intro f hf g hg he
+    obtain ⟨r1, rfl, _, h1, v1⟩ := hname f hf
+    obtain ⟨r2, rfl, _, h2, v2⟩ := hname g hg
+    rw [h1, h2] at he
+    rw [joinSlash_inj_valid v1 v2 he]
+  have hnd : ((dedupFirst fl).map (objectName cwd)).Nodup := by
+    refine (List.nodup_map_iff_inj_on (nodup_dedupFirst fl)).mpr ?_
+    intro f hf g hg he
+    exact hinj f ((mem_dedupFirst fl f).mp hf) g ((mem_dedupFirst fl g).mp hg) he
+  -- the upload
+  obtain ⟨u1, u2, _, u4, u5⟩ := upload_skip_existing_preserves M concurrent hconc cwd dirs paths rlUp hr1 skipUp s hinv t fl hfl hokf
+  have hup : ∀ f ∈ fl, M.abs (uploadObjects M.step concurrent cwd dirs paths rlUp skipUp s t).st (objectName cwd f) = t.get f := by
+    intro f hf
+    apply u5 hnd f hf
+    cases skipUp with
+    | false => exact Or.inl rfl
+    | true => exact Or.inr (hfresh rfl f hf)
+  have hget : ∀ f ∈ fl, (t.get f).isSome = true := flatten_mem hfl
+  -- what the store holds afterwards, as far as the filter sees it
+  have hlive : ∀ n, (M.abs (uploadObjects M.step concurrent cwd dirs paths rlUp skipUp s t).st n).isSome = true → pfx <+: n →
+      keep n = true → ∃ f ∈ fl, n = objectName cwd f := by
+    intro n h1 h2 h3
+    by_cases hm : n ∈ fl.map (objectName cwd)
+    · obtain ⟨f, hf, rfl⟩ := List.mem_map.mp hm
+      exact ⟨f, hf, rfl⟩
+    · rw [u4 n hm] at h1
+      exact hothers n h1 h2 h3
+  -- the download
+  obtain ⟨⟨l, lnd, lmem, lres⟩, _, _, _, d5, d6⟩ := download_skip_existing_preserves M U hU concurrent hconc pfx keep rlDown hr2 skipDown
+    _ u2 [] (by intro q hq; cases hq) hlist (by
+      intro n h1 h2 h3
+      obtain ⟨f, hf, rfl⟩ := hlive n h1 h2 h3
+      obtain ⟨rel, _, hu, hn, hv⟩ := hname f hf
+      rw [hn]
+      exact ⟨validName_joinSlash hv, by rw [split_join_valid hv]; exact hu, hnames _ (validName_joinSlash hv) (by rw [split_join_valid hv]; exact hu)⟩)
+  refine ⟨u1, ⟨l, lnd, ?_, lres⟩, ?_, ?_⟩
+  · intro n
+    rw [lmem]
+    constructor
+    · rintro ⟨h1, h2, h3⟩; exact ⟨hlive n h1 h2 h3, h2, h3⟩
+    · rintro ⟨⟨f, hf, rfl⟩, h2, h3⟩
+      exact ⟨by rw [hup f hf]; exact hget f hf, h2, h3⟩
+  · obtain ⟨l', _, _, _, _, _, hloc⟩ := downloadObjects_spec M hU concurrent hconc pfx keep rlDown hr2 skipDown _ u2 []
+      (by intro q hq; cases hq) hlist (by
+        intro n h1 h2 h3
+        obtain ⟨f, hf, rfl⟩ := hlive n h1 h2 h3
+        obtain ⟨rel, _, hu, hn, hv⟩ := hname f hf
+        rw [hn]
+        exact ⟨validName_joinSlash hv, by rw [split_join_valid hv]; exact hu, hnames _ (validName_joinSlash hv) (by rw [split_join_valid hv]; exact hu)⟩)
+    rw [hloc]
+    exact downSpec_nodup _ _ _ _ List.nodup_nil
+  · intro rel
+    by_cases hc : cwd ++ rel ∈ fl ∧ pfx <+: joinSlash rel ∧ keep (joinSlash rel) = true
+    · obtain ⟨hf, h2, h3⟩ := hc
+      obtain ⟨rel', he, _, hn, hv⟩ := hname _ hf
+      have hrel : rel' = rel := (List.append_cancel_left he).symm
+      subst hrel
+      rw [if_pos ⟨hf, h2, h3⟩]
+      have h1 : (M.abs (uploadObjects M.step concurrent cwd dirs paths rlUp skipUp s t).st (joinSlash rel')).isSome = true := by
+        rw [← hn, hup _ hf]; exact hget _ hf
+      have := d5 (joinSlash rel') h1 h2 h3 (Or.inr rfl)
+      rw [split_join_valid hv] at this
+      rw [this, ← hn, hup _ hf]
+    · rw [if_neg hc]
+      apply d6
+      rintro ⟨n, h1, h2, h3, rfl⟩
+      obtain ⟨f, hf, rfl⟩ := hlive n h1 h2 h3
+      obtain ⟨rel', rfl, _, hn, hv⟩ := hname f hf
+      apply hc
+      rw [hn, split_join_valid hv]
+      rw [hn] at h2 h3
+      exact ⟨hf, h2, h3⟩
+
+/-- **The order in which the `asyncio.gather` tasks run does not matter** when the names are distinct: the loops of the three
+mutating commands, taken at the level of the map / directory, give the same result for every permutation of the files /
+objects / names (the model runs them in list order; the real tasks interleave). -/
+theorem gather_order_irrelevant (skip : Bool) (m : Spec) :
+    (∀ l1 l2 : List (Name × Bytes), l1.Perm l2 → (l1.map (·.1)).Nodup → upSpec skip m l1 = upSpec skip m l2) ∧
+    (∀ (dir : Tree) (l1 l2 : List Name), l1.Perm l2 → (∀ n ∈ l1, (m n).isSome = true) →
+        ∀ q, (downSpec skip m dir l1).get q = (downSpec skip m dir l2).get q) ∧
+    (∀ l1 l2 : List Name, l1.Perm l2 → delAll m l1 = delAll m l2) := by
+  refine ⟨?_, ?_, ?_⟩
+  · intro l1 l2 hp hnd
+    have hnd2 : (l2.map (·.1)).Nodup := (hp.map _).nodup_iff.mp hnd
+    funext n
+    by_cases hm : n ∈ l1.map (·.1)
+    · obtain ⟨⟨k, d⟩, he, rfl⟩ := List.mem_map.mp hm
+      by_cases hc : skip = true ∧ (m k).isSome = true
+      · obtain ⟨rfl, hk⟩ := hc
+        rw [upSpec_skip_keeps _ _ _ hk, upSpec_skip_keeps _ _ _ hk]
+      · have hc' : skip = false ∨ m k = none := by
+          cases skip with
+          | false => exact Or.inl rfl
+          | true => right; simpa using hc
+        rw [upSpec_mem skip m l1 hnd k d he hc', upSpec_mem skip m l2 hnd2 k d (hp.mem_iff.mp he) hc']
+    · have hm2 : n ∉ l2.map (·.1) := fun h => hm ((hp.map _).mem_iff.mpr h)
+      rw [upSpec_not_mem _ _ _ _ hm, upSpec_not_mem _ _ _ _ hm2]
+  · intro dir l1 l2 hp hl q
+    have hl2 : ∀ n ∈ l2, (m n).isSome = true := fun n hn => hl n (hp.mem_iff.mpr hn)
+    rw [downSpec_get skip m l1 hl, downSpec_get skip m l2 hl2]
+    have : q ∈ l1.map splitSlash ↔ q ∈ l2.map splitSlash := (hp.map _).mem_iff
+    by_cases h : q ∈ l1.map splitSlash
+    · rw [if_pos h, if_pos (this.mp h)]
+    · rw [if_neg h, if_neg (fun h2 => h (this.mpr h2))]
+  · intro l1 l2 hp
+    funext n
+    rw [delAll_apply, delAll_apply]
+    by_cases h : n ∈ l1
+    · rw [if_pos h, if_pos (hp.mem_iff.mp h)]
+    · rw [if_neg h, if_neg (fun h2 => h (hp.mem_iff.mpr h2))]
+
+/-- **Every interleaving of the upload tasks gives the same store.**  With `skip_existing` each gathered task makes up to two
+backend calls (`exists`, then `upload_stream` if the answer was `False`) and the calls of different tasks interleave (`runSchedule`:
+every pick is the next backend call of the picked task).  For distinct names and
+every schedule (any order, any repetition of picks, picks of finished or unknown tasks allowed) after which all tasks are done,
+the map is the one the sequential model computes: no task's `exists` answer can be invalidated by another task, because the
+others write to other names.  (For `download_objects` and `delete_objects` a task makes one backend call, so the task-level
+permutations of `gather_order_irrelevant` are all the interleavings there are.) -/
+theorem upload_interleaving_irrelevant (skip : Bool) (m0 : Spec) (items : List (Name × Bytes)) (hnd : (items.map (·.1)).Nodup)
+    (sched : List Name) (hdone : ∀ t ∈ (runSchedule skip m0 (initTasks items) sched).2, t.phase = .done) :
+    (runSchedule skip m0 (initTasks items) sched).1 = upSpec skip m0 items := by
+  have hg := good_run skip m0 items sched m0 _ (good_init skip m0 items)
+  funext n
+  by_cases hn : n ∈ items.map (·.1)
+  · rw [← hg.names] at hn
+    obtain ⟨t, ht, rfl⟩ := List.mem_map.mp hn
+    have hp := hg.phase t ht
+    rw [hdone t ht] at hp
+    simp only at hp
+    rw [hp]
+    by_cases hc : skip = true ∧ (m0 t.name).isSome = true
+    · rw [if_pos hc, hc.1, upSpec_skip_keeps _ _ _ hc.2]
+    · rw [if_neg hc]
+      symm
+      apply upSpec_mem skip m0 items hnd _ _ (hg.mem t ht)
+      cases skip with
+      | false => exact Or.inl rfl
+      | true => right; simpa using hc
+  · rw [hg.other n hn, upSpec_not_mem _ _ _ _ hn]
+
+/-- non-vacuity: three tasks whose calls interleave (`exists c`, `exists a` — it exists, skipped —, `exists b`, `upload b`, a pick
+of the finished `b`, `upload c`): the schedule completes and the store is the sequential one -/
+example :
+    let m0 : Spec := MapStore.abs [("a".toList, [7])]
+    let r := runSchedule true m0 (initTasks [("a".toList, [1]), ("b".toList, [2]), ("c".toList, [3])])
+      ["c".toList, "a".toList, "b".toList, "b".toList, "b".toList, "c".toList]
+    r.2.map (·.phase) = [.done, .done, .done] ∧ r.1 "a".toList = some [7] ∧ r.1 "b".toList = some [2] ∧ r.1 "c".toList = some [3] := by
+  refine ⟨by decide, by decide, by decide, by decide⟩
+
+/-- what `ObjCmd.lean` assumes about the source of the four commands, read from the current source by the extractor
+(`tools/sections/13_objcmd.py`): the name is the path relative to the common path with the working directory in POSIX form;
+`skip_existing and await self._exists(name)` guards the upload; the chunk size under a rate limit has floor 1 and the default is
+`DEFAULT_STREAM_CHUNK_SIZE`; the download opens with `'xb'` iff `skip_existing` and swallows `FileExistsError`; the selection is
+`list_files(object_prefix)` filtered by `re.search`; `delete_objects` evicts the cached copy after the backend delete iff a cache
+directory is configured, with `missing_ok=True` -/
+theorem objcmd_model_assumptions_hold :
+    Gen.objcmdNameIsRelativeToCommonPath = true ∧ Gen.objcmdUploadSkipChecksExists = true ∧ Gen.objcmdChunkFloor = 1 ∧
+    Gen.objcmdDefaultChunkIsStreamChunk = true ∧ Gen.objcmdDownloadModeExclusiveIffSkip = true ∧
+    Gen.objcmdDownloadSkipsOnFileExists = true ∧ Gen.objcmdFilterIsPrefixThenSearch = true ∧
+    Gen.objcmdDeleteEvictsCache = true ∧ Gen.objcmdEvictMissingOk = true ∧ Gen.objcmdSectionOk = true := by decide
+
+/-- the theorems above apply to the three adapter models: over the local model every canonical name of the universe is in the
+region (`OkName`), over the S3 model every canonical name (no `.`/`..` segment), over the B2 model every canonical name without
+`? # % +` -/
+example (U : Path → Prop) (hU : Universe U) (hnotmp : ∀ p, U p → tmpName (joinSlash p) = false) (root : List Char)
+    (hroot : goodRoot root = true) (n : Name) (hv : validName n = true) (hu : U (splitSlash n)) :
+    (localModel U hU hnotmp root hroot).OkName n :=
+  ⟨⟨trivial, hv, hu⟩, ⟨trivial, hv, hu⟩, fun _ _ hc => ⟨hc, hv, hu⟩, fun _ _ hc => ⟨hc, hv, hu⟩⟩
+
+example (ps : Nat) (hps : 1 ≤ ps) (n : Name) (hv : validName n = true) : (s3Model ps hps).OkName n := by
+  have hd : hasDotSegment n = false := by
+    simp only [hasDotSegment, List.any_eq_false, decide_eq_true_eq]
+    intro s hs
+    have := (validSeg_iff s).mp (((validPath_iff _).mp hv).2 s hs)
+    exact fun h => h.elim this.2.2.1 this.2.2.2
+  exact ⟨⟨hd, trivial⟩, ⟨hd, trivial⟩, fun _ _ hc => ⟨hd, hc⟩, fun _ _ hc => ⟨hd, hc⟩⟩
+
+example (ps : Nat) (hps : 1 ≤ ps) (n : Name) (hv : validName n = true)
+    (hchars : ∀ c ∈ n, c ≠ '?' ∧ c ≠ '#' ∧ c ≠ '%' ∧ c ≠ '+') : (b2Model ps hps).OkName n := by
+  have hd : hasDotSegment n = false := by
+    simp only [hasDotSegment, List.any_eq_false, decide_eq_true_eq]
+    intro s hs
+    have := (validSeg_iff s).mp (((validPath_iff _).mp hv).2 s hs)
+    exact fun h => h.elim this.2.2.1 this.2.2.2
+  have ha := b2_safe_names n hd hchars
+  exact ⟨⟨ha, trivial⟩, ⟨ha, trivial⟩, fun _ _ hc => ⟨ha, hc⟩, fun _ _ hc => ⟨ha, hc⟩⟩
+
+/-- non-vacuity (round trip, both `skip_existing` theorems): a tree under `/w/cwd`, the path arguments "the directory" and "one of
+its files again", a rate limit, a store that already holds `c` (skipped: not overwritten) and another object `x` (filtered out by
+the predicate), a target directory that already holds `a/b` (skipped on download) — inside the hypotheses, and what the model
+returns -/
+example :
+    let cwd : Path := ["w".toList, "cwd".toList]
+    let t : Tree := [(cwd ++ ["a".toList, "b".toList], [1, 2]), (cwd ++ ["c".toList], [3])]
+    let up := uploadObjects MapStore.step 2 cwd [] [cwd, cwd ++ ["c".toList]] (some 100) true [("x".toList, [9]), ("c".toList, [7])] t
+    let down := downloadObjects MapStore.step 2 [] (fun n => n != "x".toList) none true up.st [(["a".toList, "b".toList], [0])]
+    flatten t [] [cwd, cwd ++ ["c".toList]] = .ok [cwd ++ ["a".toList, "b".toList], cwd ++ ["c".toList], cwd ++ ["c".toList]] ∧
+    up.res = .ok (.files [cwd ++ ["a".toList, "b".toList], cwd ++ ["c".toList]]) ∧
+    up.tr.map (·.1) = [.exists_ "a/b".toList, .uploadStream "a/b".toList [1, 2] 3, .exists_ "c".toList] ∧
+    MapStore.abs up.st "a/b".toList = some [1, 2] ∧ MapStore.abs up.st "c".toList = some [7] ∧
+    down.res = .ok (.names ["a/b".toList, "c".toList]) ∧
+    down.tr.map (·.1) = [.list [], .downloadStream "c".toList 128000 []] ∧
+    down.loc.get ["a".toList, "b".toList] = some [0] ∧ down.loc.get ["c".toList] = some [7] ∧ down.loc.get ["x".toList] = none := by
+  refine ⟨by decide, by decide, by decide, by decide, by decide, by decide, by decide, by decide, by decide, by decide⟩
+
+/-- non-vacuity (`list_objects_spec`, `delete_objects_spec`): prefix `a/`, a predicate, a confirmation answered `Y`, a cache that holds a
+copy of one deleted object; a second run changes nothing; an answer other than `y` leaves everything as it was -/
+example :
+    let s0 : MapStore := [("a/b".toList, [1]), ("a/c".toList, [2]), ("d".toList, [3])]
+    let cache : Tree := [(["a".toList, "b".toList], [1]), (["k".toList], [5])]
+    let del := deleteObjects MapStore.step ["a/b".toList, "zz".toList, "a/b".toList] true ['Y'] true s0 cache
+    (listObjects MapStore.step "a/".toList (fun n => n != "a/c".toList) s0 []).res = .ok (.names ["a/b".toList]) ∧
+    del.res = .ok .none ∧ del.st = [("a/c".toList, [2]), ("d".toList, [3])] ∧ del.loc = [(["k".toList], [5])] ∧
+    (deleteObjects MapStore.step ["a/b".toList, "zz".toList, "a/b".toList] true ['Y'] true del.st del.loc).st = del.st ∧
+    (deleteObjects MapStore.step ["a/b".toList] true "yes".toList true s0 cache).st = s0 ∧ proceeds true "yes".toList = false := by
+  refine ⟨by decide, by decide, by decide, by decide, by decide, by decide, by decide⟩
+
+/-- non-vacuity of the name universe used above -/
+example : Universe (fun p => p = ["a".toList, "b".toList] ∨ p = ["c".toList] ∨ p = ["k".toList]) := by
+  refine ⟨?_, ?_⟩
+  · rintro p (rfl | rfl | rfl) <;> decide
+  · rintro p q (rfl | rfl | rfl) (rfl | rfl | rfl) <;> decide
+
+end objcmd
 
 end Replicat.C13
